@@ -3,7 +3,13 @@
 header: timelimiter timeout=<ms> cancel=<0|1> dyn=<0|1>
    or:  timelimiter chain=<s1,s2,…>   the builder chain itself, left to right: d<ms> = timeout_duration, f<ms> = timeout_fn
         (requests without their own timeout get <ms>), c0/c1 = cancel_running_future(false/true); `chain=-` = no setter
-ops:    arrive <c> [timeout=<ms>] inner=<lat>:<out> | poll <c> | drop <c> | adv <ms> | settle | dropall
+ops:    arrive <c> [timeout=<ms>] inner=<lat>:<out> | poll <c> | drop <c> | adv <ms> | settle | dropall | manual dropsvc
+        wherever a timeout is written (`timeout=` in the header / on arrive, `d…` / `f…` in a chain) `max` = Duration::MAX, the
+        idiomatic "no limit": not representable as a deadline, such a call is never due (tokio's timeout/sleep fall back to the far
+        future); `manual dropsvc`: the adapter drops its TimeLimiter, the callers keep only their response futures (what
+        ServiceExt::oneshot does); later arrivals are `noop`
+log:    `inner_orphaned <c> <k>`: the last instance of the (scripted) inner service was dropped while call k was unfinished — the inner
+        service of the harness ties in-flight work to live handles, like a client handle of a shared connection
 
 Facts about the real layer the monitors rely on (read off lib.rs, not off the Lean model):
 `call()` only captures the timeout; the inner service is called, and the deadline armed, at
@@ -48,10 +54,32 @@ def _outcome(rng):
 U64MAX = 2 ** 64 - 1
 HUGE = [U64MAX, U64MAX - 1, 2 ** 63, 10 ** 13, 4102444800000]
 FAR = 10 ** 6          # beyond this a timeout / deadline is "never reached" as far as the generator's clock goes
+INF = 2 ** 200         # `max` = Duration::MAX: no deadline at all (python side: an instant no clock reaches)
+
+
+def tmo_parse(text, dflt=None):
+    """'<ms>' or 'max' -> int (INF for max); anything else -> dflt"""
+    if text == "max":
+        return INF
+    if text.isascii() and text.isdigit():
+        return int(text)
+    return dflt
+
+
+def tmo_text(t):
+    return "max" if t >= INF else "%d" % t
+
+
+def _d(t):
+    """an instant in a message"""
+    return "never" if t is not None and t >= INF else str(t)
 
 
 def _timeout_value(rng):
-    if rng.random() < 0.06:
+    r = rng.random()
+    if r < 0.05:
+        return INF
+    if r < 0.10:
         return rng.choice(HUGE)
     return rng.choice([0, 1, 2, 5, 10, 10, 20, rng.randint(1, 40), rng.randint(1, 40)])
 
@@ -63,13 +91,12 @@ def parse_chain(text):
     last_src = last_flag = None
     for i, it in enumerate(text.split(",")):
         head, arg = it[:1], it[1:]
-        if not (arg.isascii() and arg.isdigit()):
-            continue
-        if head == "d":
-            T, dyn, last_src = int(arg), False, i
-        elif head == "f":
-            T, dyn, last_src = int(arg), True, i
-        elif head == "c" and int(arg) <= 1:
+        t = tmo_parse(arg)
+        if head == "d" and t is not None:
+            T, dyn, last_src = t, False, i
+        elif head == "f" and t is not None:
+            T, dyn, last_src = t, True, i
+        elif head == "c" and arg.isascii() and arg.isdigit() and int(arg) <= 1:
             cancel, last_flag = int(arg) == 1, i
     return T, cancel, dyn, last_src, last_flag
 
@@ -79,7 +106,7 @@ def _gen_chain(rng):
     emphasis on the two orders of {flag, timeout source}"""
     r = rng.random()
     T = _timeout_value(rng)
-    src = ("f%d" if rng.random() < 0.6 else "d%d") % T
+    src = ("f%s" if rng.random() < 0.6 else "d%s") % tmo_text(T)
     flag = "c%d" % (0 if rng.random() < 0.7 else 1)
     if r < 0.30:
         items = [flag, src]
@@ -96,9 +123,9 @@ def _gen_chain(rng):
         for _ in range(rng.randint(2, 5)):
             q = rng.random()
             if q < 0.30:
-                items.append("d%d" % _timeout_value(rng))
+                items.append("d%s" % tmo_text(_timeout_value(rng)))
             elif q < 0.60:
-                items.append("f%d" % _timeout_value(rng))
+                items.append("f%s" % tmo_text(_timeout_value(rng)))
             else:
                 items.append("c%d" % rng.choice([0, 0, 1]))
     return ",".join(items) if items else "-"
@@ -114,8 +141,12 @@ def gen(rng, tier):
         T = _timeout_value(rng)
         cancel = rng.choice([0, 1])
         dyn = rng.choice([0, 1])
-        header = "timelimiter timeout=%d cancel=%d dyn=%d" % (T, cancel, dyn)
+        header = "timelimiter timeout=%s cancel=%d dyn=%d" % (tmo_text(T), cancel, dyn)
     ncall = rng.randint(1, 6)
+    # the callers let go of the service (oneshot): never (70 %), as soon as every call has been made, or at a random point
+    r = rng.random()
+    dropsvc = "never" if r < 0.70 else "after-arrivals" if r < 0.88 else "random"
+    gone = False
     pending = list(range(1, ncall + 1))
     ops = []
     now = 0
@@ -137,15 +168,32 @@ def gen(rng, tier):
     nsteps = rng.randint(6, 40)
     for _ in range(nsteps):
         r = rng.random()
+        if not gone and arrived and ((dropsvc == "after-arrivals" and not pending and rng.random() < 0.5)
+                                     or (dropsvc == "random" and rng.random() < 0.08)):
+            ops.append("manual dropsvc")
+            gone = True
+            if rng.random() < 0.8:
+                pending = []
+            continue
+        if pending and gone and (r < 0.22 or not arrived):
+            # no handle is left: the request cannot be made (answered `noop` by harness and driver alike)
+            c = pending.pop(0)
+            ops.append("arrive %d inner=%d:ok" % (c, rng.randint(0, 9)))
+            if rng.random() < 0.5:
+                ops.append("poll %d" % c)
+            continue
         if pending and (r < 0.22 or not arrived):
             c = pending.pop(0)
             words = ["arrive", str(c)]
             t_eff = T
             if rng.random() < (0.75 if dyn else 0.25):
                 tr = rng.choice([0, 1, 3, 5, 8, 10, 15, rng.randint(0, 40)])
-                if rng.random() < 0.07:
+                q = rng.random()
+                if q < 0.06:
+                    tr = INF
+                elif q < 0.12:
                     tr = rng.choice(HUGE)
-                words.append("timeout=%d" % tr)
+                words.append("timeout=%s" % tmo_text(tr))
                 if dyn:
                     t_eff = tr
             out = _outcome(rng)
@@ -211,7 +259,7 @@ def _cfg(case):
     if "chain" in cfg:
         T, cancel, dyn, _, _ = parse_chain(cfg["chain"])
         return T, cancel, dyn
-    return int(cfg.get("timeout", "5000")), cfg.get("cancel", "1") != "0", cfg.get("dyn", "0") != "0"
+    return tmo_parse(cfg.get("timeout", "5000"), 5000), cfg.get("cancel", "1") != "0", cfg.get("dyn", "0") != "0"
 
 
 def _script(case):
@@ -219,15 +267,22 @@ def _script(case):
     T, cancel, dyn = _cfg(case)
     res = {}
     now = 0
+    seen = set()
+    gone = False
     for o in case["ops"]:
         w = o.split()
         if not w:
             continue
         if w[0] == "adv" and len(w) > 1 and w[1].isdigit():
             now += int(w[1])
-        if w[0] == "arrive" and len(w) > 1 and w[1] not in res:
+        if w[:2] == ["manual", "dropsvc"]:
+            gone = True
+        if w[0] == "arrive" and len(w) > 1 and w[1] not in seen:
+            seen.add(w[1])
+            if gone:
+                continue       # every handle has been dropped: no request can be made any more
             kv = kvs(o)
-            t_eff = int(kv["timeout"]) if (dyn and "timeout" in kv and kv["timeout"].isdigit()) else T
+            t_eff = tmo_parse(kv["timeout"], T) if (dyn and "timeout" in kv) else T
             first = kv.get("inner", "0:ok").split(",")[0]
             la, _, out = first.partition(":")
             if not out:
@@ -282,6 +337,8 @@ class View:
         self.idrop = {}       # caller -> (instant, position)
         self.result = {}      # caller -> (instant, text, position)
         self.dropped = {}     # caller -> (instant, position)     call future dropped by the caller
+        self.orphan = {}      # caller -> (instant, serial, position)   inner call orphaned: last handle of the inner service gone
+        self.dropsvc = None   # instant at which the callers let go of the service
         self.wakes_before_result = {}
         self.errors = []
         lastwake = {}
@@ -295,6 +352,8 @@ class View:
                     lastwake[w[1]] = (i, [int(x) for x in w[2].split(",")])
                 elif w[0] == "#drop":
                     self.dropped[w[1]] = (int(w[2]), i)
+                elif w[0] == "#dropsvc" and len(w) > 1:
+                    self.dropsvc = int(w[1])
                 continue
             c = w[1] if len(w) > 1 else None
             if w[0] == "inner_call":
@@ -309,6 +368,8 @@ class View:
                 if c in self.done or c in self.idrop:
                     self.errors.append("caller %s: inner call ended twice" % c)
                 self.idrop[c] = (t, i)
+            elif w[0] == "inner_orphaned":
+                self.orphan.setdefault(c, (t, w[2], i))
             elif w[0] == "result":
                 if c in self.result:
                     self.errors.append("caller %s: two results" % c)
@@ -360,15 +421,19 @@ def mon_instant(case, lines, meta):
             expected[c] = now
             del live[c]
 
+    gone = False
     for o in case["ops"]:
         w = o.split()
         if not w:
             continue
         if w[0] == "adv" and len(w) > 1 and w[1].isdigit():
             now += int(w[1])
+        elif w[:2] == ["manual", "dropsvc"]:
+            gone = True
         elif w[0] == "arrive" and len(w) > 1 and w[1].isdigit() and w[1] not in seen:
             seen.add(w[1])
-            live[w[1]] = False
+            if not gone:
+                live[w[1]] = False
         elif w[0] == "poll" and len(w) > 1 and w[1] in live:
             poll(w[1])
         elif w[0] == "drop" and len(w) > 1 and w[1] in live:
@@ -385,17 +450,17 @@ def mon_instant(case, lines, meta):
         t_eff, done, deadline, out = v.times(c)
         m = deadline if done is None else min(done, deadline)
         if tr < m:
-            return "caller %s resolved at t=%d (%s), before min(done=%s, deadline=%d)" % (c, tr, text, done, deadline)
+            return "caller %s resolved at t=%d (%s), before min(done=%s, deadline=%s)" % (c, tr, text, done, _d(deadline))
         if c not in expected:
             return "caller %s resolved at t=%d (%s) by a poll that should not have resolved it" % (c, tr, text)
         if expected[c] != tr:
-            return "caller %s (first poll t=%d, done=%s, deadline=%d) resolved at t=%d, but was polled at t=%d >= min(done, deadline)" % (
-                c, v.fp[c], done, deadline, tr, expected[c])
+            return "caller %s (first poll t=%d, done=%s, deadline=%s) resolved at t=%d, but was polled at t=%d >= min(done, deadline)" % (
+                c, v.fp[c], done, _d(deadline), tr, expected[c])
         due = first_visited_at_or_after(v.visited, m)
         if due is not None and tr > due and tr > v.fp[c] and due not in v.wakes_before_result.get(c, []):
             # exception: resolved by the very first poll needs no wake-up
-            return "caller %s (done=%s, deadline=%d) was not woken at t=%d, the first visited instant >= min(done, deadline) (wake-ups before the resolving poll: %s); resolved only when polled at t=%d" % (
-                c, done, deadline, due, v.wakes_before_result.get(c, []), tr)
+            return "caller %s (done=%s, deadline=%s) was not woken at t=%d, the first visited instant >= min(done, deadline) (wake-ups before the resolving poll: %s); resolved only when polled at t=%d" % (
+                c, done, _d(deadline), due, v.wakes_before_result.get(c, []), tr)
         if due is not None and tr > due and tr == v.fp[c]:
             pass
     for c, tx in expected.items():
@@ -425,17 +490,17 @@ def _kind_check(case, lines, meta, strict_both):
             if text == inner and not have_inner:
                 return "caller %s got the inner result %s at t=%d before it was available (done=%s)" % (c, text, tr, done)
             if text == "err:timeout" and not have_deadline:
-                return "caller %s got the timeout error at t=%d before the deadline %d" % (c, tr, deadline)
+                return "caller %s got the timeout error at t=%d before the deadline %s" % (c, tr, _d(deadline))
             if have_inner and not have_deadline and text != inner:
-                return "caller %s: inner call finished at %d, before the deadline %d, polled at t=%d: expected %s, got %s" % (
-                    c, done, deadline, tr, inner, text)
+                return "caller %s: inner call finished at %d, before the deadline %s, polled at t=%d: expected %s, got %s" % (
+                    c, done, _d(deadline), tr, inner, text)
             if have_deadline and not have_inner and text != "err:timeout":
                 return "caller %s: deadline %d passed, inner call not finished (done=%s), polled at t=%d: expected err:timeout, got %s" % (
                     c, deadline, done, tr, text)
         else:
             if have_inner and have_deadline and done < deadline and text != inner:
-                return ("caller %s: the inner call finished at t=%d, strictly before the deadline t=%d, the caller was polled at t=%d "
-                        "and got %s instead of %s" % (c, done, deadline, tr, text, inner))
+                return ("caller %s: the inner call finished at t=%d, strictly before the deadline t=%s, the caller was polled at t=%d "
+                        "and got %s instead of %s" % (c, done, _d(deadline), tr, text, inner))
     return None
 
 
@@ -475,7 +540,7 @@ def mon_fate(case, lines, meta):
                     if not (res[2] == pos + 1 and res[0] == td):
                         return "caller %s: inner future dropped at t=%d but the timeout was reported at t=%d" % (c, td, res[0])
                     if td < deadline:
-                        return "caller %s: inner future dropped at t=%d before the deadline %d" % (c, td, deadline)
+                        return "caller %s: inner future dropped at t=%d before the deadline %s" % (c, td, _d(deadline))
                 elif res:
                     return "caller %s: inner future dropped although the call resolved with %s" % (c, res[1])
                 elif c not in v.dropped or v.dropped[c][1] + 1 != pos:
@@ -499,6 +564,53 @@ def mon_fate(case, lines, meta):
                     return "caller %s: detached inner call completed at t=%d, expected t=%d" % (c, v.done[c][0], due)
             elif c in v.done:
                 return "caller %s: inner call completed at t=%d before its latency (done=%s)" % (c, v.done[c][0], done)
+    return None
+
+
+def mon_nopanic(case, lines, meta):
+    """a call through the time limiter whose inner call does not panic never panics, whatever its timeout — in particular
+    `Duration::MAX` ("no limit"): a call whose inner result is available must resolve with it"""
+    v = View(case, lines, meta)
+    for c, (tr, text, _) in v.result.items():
+        if text != "panic" or c not in v.script:
+            continue
+        t_eff, la, out, _ = v.script[c]
+        if out == "panic":
+            continue
+        k = v.call[c][1] if c in v.call else None
+        exp = _inner_text(out, k if k is not None else "<k>")
+        what = ("its inner call (latency %s, outcome %s) %s" % (la, out, "was never even made" if k is None else "is call %s" % k))
+        want = ("it has no deadline at all: it must resolve with %s at t=%s" % (exp, _d(v.fp.get(c, tr) + la)) if t_eff >= INF and la is not None
+                else "it must stay pending for ever" if t_eff >= INF
+                else "it must resolve with %s or err:timeout" % exp if la is not None else "it must resolve with err:timeout")
+        return "caller %s (timeout %s, %s mode) panicked when polled at t=%d; %s; %s" % (
+            c, tmo_text(t_eff), "cancel" if v.cancel else "non-cancel", tr, what, want)
+    return None
+
+
+def mon_background(case, lines, meta):
+    """'with cancellation disabled the inner call keeps running to completion in the background': in non-cancel mode no inner
+    call is dropped, or orphaned (the last instance of the inner service dropped while the call is unfinished), before it
+    completes — whatever the callers do with their handles of the service (kept, or let go after the call as `oneshot`
+    does: `manual dropsvc`) and with the call future (timed out, dropped, kept).  In cancel mode an inner call lives until it
+    completes or is dropped with its call future: it is never orphaned either."""
+    v = View(case, lines, meta)
+    for c in sorted(v.call, key=int):
+        if c in v.orphan:
+            to, k, pos = v.orphan[c]
+            res = v.result.get(c)
+            state = ("its caller had got %s at t=%d" % (res[1], res[0]) if res and res[2] < pos
+                     else "its call future had been dropped at t=%d" % v.dropped[c][0] if c in v.dropped and v.dropped[c][1] < pos
+                     else "its caller was still waiting")
+            t_eff, done, deadline, out = v.times(c) if c in v.fp and c in v.script else (None, None, None, None)
+            return ("caller %s: inner call %s (%s) was orphaned at t=%d — the last instance of the inner service "
+                    "was dropped while the call was unfinished (%s mode; the callers let go of the service at t=%s; %s)%s" % (
+                        c, k, "never completes by itself" if done is None else "would complete at t=%s" % _d(done), to,
+                        "cancel" if v.cancel else "non-cancel", v.dropsvc, state,
+                        "" if v.cancel else ": with cancellation disabled the inner call must keep running to completion in the background"))
+        if not v.cancel and c in v.idrop:
+            return "caller %s: inner call dropped at t=%d in non-cancel mode: it must keep running to completion in the background" % (
+                c, v.idrop[c][0])
     return None
 
 
@@ -531,11 +643,31 @@ def transitions(case, lines, meta=None):
             dropped_by_caller.add(w[1])
     has_dropall = any(o.split()[:1] == ["dropall"] for o in case["ops"])
     prev = None
-    for l in lines:
+    dropsvc_at = None
+    for i, m in (meta or []):
+        if m.startswith("#dropsvc") and i >= 0:
+            dropsvc_at = i
+            tags.append("dropsvc")
+    unfinished = set()
+    ops_ = [o.split() for o in case["ops"]]
+    if dropsvc_at is not None and ["manual", "dropsvc"] in ops_ and any(w[:1] == ["arrive"] for w in ops_[ops_.index(["manual", "dropsvc"]):]):
+        tags.append("arrive-after-dropsvc")
+    for li, l in enumerate(lines):
         t, w = tparse(l)
         if not w:
             continue
         c = w[1] if len(w) > 1 else None
+        if dropsvc_at is not None and li == dropsvc_at and unfinished:
+            tags.append("dropsvc-calls-in-flight")
+        if w[0] == "inner_call":
+            unfinished.add(c)
+        elif w[0] in ("inner_done", "inner_drop"):
+            unfinished.discard(c)
+            if w[0] == "inner_done" and dropsvc_at is not None and li >= dropsvc_at and not cancel and c in result:
+                # the clause of C06-w3m2: no handle of the service left, the caller already answered (timeout), the detached call completes
+                tags.append("detached-done-after-timeout-no-handle-left")
+        elif w[0] == "result" and dropsvc_at is not None and li >= dropsvc_at and len(w) > 2 and w[2] == "err:timeout":
+            tags.append("timeout-after-dropsvc")
         if w[0] == "inner_call" and c in script:
             call[c] = t
             t_eff, la, out, ta = script[c]
@@ -554,7 +686,11 @@ def transitions(case, lines, meta=None):
                 tags.append("lat=timeout+1")
             if t_eff == 0:
                 tags.append("timeout-zero")
-            if t_eff >= FAR:
+            if t_eff >= INF:
+                tags.append("timeout-max")
+                if la is not None:
+                    tags.append("timeout-max-" + ("cancel" if cancel else "nocancel") + ("-own" if dyn and T < INF else "-default"))
+            elif t_eff >= FAR:
                 tags.append("timeout-huge")
             if dyn and t_eff != T:
                 tags.append("own-timeout-differs-from-default")
@@ -590,10 +726,14 @@ def transitions(case, lines, meta=None):
             if kind == "timeout" and cancel and prev and prev[0] == "inner_drop":
                 tags.append("cancel-drop-at-timeout")
         prev = w
+    if dropsvc_at is not None and dropsvc_at >= len(lines) and unfinished:
+        tags.append("dropsvc-calls-in-flight")
     return tags
 
 
-ALL = ["mode-cancel", "mode-nocancel", "source-per-request", "source-fixed", "first-poll-after-creation",
+ALL = ["timeout-max", "timeout-max-cancel-own", "timeout-max-cancel-default", "timeout-max-nocancel-own", "timeout-max-nocancel-default",
+       "dropsvc", "dropsvc-calls-in-flight", "arrive-after-dropsvc", "timeout-after-dropsvc", "detached-done-after-timeout-no-handle-left",
+       "mode-cancel", "mode-nocancel", "source-per-request", "source-fixed", "first-poll-after-creation",
        "first-poll-later-than-slack", "chain-flag-before-source", "chain-source-before-flag", "chain-c0-before-timeout_fn",
        "chain-c0-before-timeout_duration", "chain-default-source", "chain-default-mode", "chain-overridden-setter",
        "lat-never", "lat=timeout-1", "lat=timeout", "lat=timeout+1", "timeout-zero", "timeout-huge",
@@ -616,14 +756,19 @@ LEVEL_NOTE = ("Trusted: Lean kernel; the transcription of tokio::time::timeout (
               "'At the instant' is decided by tokio's timer and wakers: the theorems cover the decision taken at every poll and the "
               "instant from which a poll resolves; that the caller is actually woken at min(done, deadline) is observed by the "
               "monitor c06-resolution-instant on the sampled schedules (#wake lines), not proved. Panicking inner calls are outside "
-              "the property's quantifier (modelled: cancel mode propagates the panic, non-cancel mode reports a timeout).")
+              "the property's quantifier (modelled: cancel mode propagates the panic, non-cancel mode reports a timeout). "
+              "Handles of the service are not part of the model (the fate of an inner call is a function of its own caller's operations "
+              "and the clock): that the layer keeps the inner service instance alive for as long as the call made on it runs is observed "
+              "by the monitor c06-background-completion against a scripted inner service that notices when its last instance goes away "
+              "(inner_orphaned), with the callers' own handle dropped at any point (manual dropsvc = what oneshot does).")
 
 SPECS = {
     "C06": {
         "group": "timelimiter",
         "module": "TR.Props.C06",
         "gen": gen,
-        "monitors": [("c06-resolution-instant", mon_instant), ("c06-result-kind", mon_kind), ("c06-inner-fate", mon_fate),
+        "monitors": [("c06-no-panic", mon_nopanic), ("c06-resolution-instant", mon_instant), ("c06-result-kind", mon_kind),
+                     ("c06-inner-fate", mon_fate), ("c06-background-completion", mon_background),
                      ("c06-intime-result-lost", mon_intime_result)],
         "transitions": transitions,
         "nontrivial": nontrivial,
@@ -631,20 +776,24 @@ SPECS = {
         "model_modules": ["TR.Model.TimeLimiter", "TR.Lemmas.TimeLimiter"],
         "lean_files": ["TR.Model.TimeLimiter", "TR.Lemmas.TimeLimiter"],
         "sizes": (800, 40000),
-        "rule": "seeded random op sequences (arrive/poll/drop/adv/settle/dropall) over 1..6 callers, both cancellation modes, fixed and "
-                "per-request timeouts 0..40 ms and (6-7%) huge ones up to u64::MAX ms, the layer configured either by timeout/cancel/dyn or (55%) "
+        "rule": "seeded random op sequences (arrive/poll/drop/adv/settle/dropall, and in 30% of the cases one `manual dropsvc`: the callers let "
+                "go of the service, right after the calls are made or at a random point) over 1..6 callers, both cancellation modes, fixed and "
+                "per-request timeouts 0..40 ms, (5-6%) huge ones up to u64::MAX ms and (5-6%) `max` = Duration::MAX (not representable as a "
+                "deadline), the layer configured either by timeout/cancel/dyn or (55%) "
                 "by an explicit builder chain of 0..5 setters (timeout_duration / timeout_fn / cancel_running_future in any order, repeated, "
                 "both orders of flag and source, empty chain = defaults), latencies at timeout-1/timeout/timeout+1/0/random/never, ok/err (few panics), creation "
                 "separated from the first poll, advances biased to done/deadline -1/0/+1 and to jumps over both (late polls); distinct = "
                 "distinct implementation event log; non-trivial = a timeout, a tie, a late poll, a dropped or detached inner call",
-        "level_text": "Theorems TR.Props.C06.{builder_mode_last_wins, builder_source_last_wins, nocancel_chain_never_drops, timeout_source, deadline_from_first_poll, resolves_from_wake, resolves_by_deadline, "
+        "level_text": "Theorems TR.Props.C06.{builder_mode_last_wins, builder_source_last_wins, nocancel_chain_never_drops, timeout_source, deadline_from_first_poll, awake_characterisation, resolves_from_wake, resolves_by_deadline, "
                       "pending_before_wake, settled_none_overdue, never_resolves_early, inner_wins_whenever_observed, "
-                      "result_if_earlier, intime_result_never_lost, timeout_if_later, cancel_drops_at_deadline, "
+                      "result_if_earlier, intime_result_never_lost, unlimited_resolves_with_inner_result, timeout_if_later, cancel_drops_at_deadline, "
                       "nocancel_runs_to_completion, nocancel_timeout_leaves_task, independent}: for every configuration (any fixed or "
                       "per-request timeout, both modes), every operation sequence and every inner script, a caller polled at or after "
                       "min(done, deadline) resolves, with the inner result whenever the inner call has finished (in both modes, also "
                       "when polled late) and with the timeout error when only the deadline has passed; a call that finished before its "
-                      "deadline is never reported as timed out; in cancel mode the inner future is dropped in the step that reports the timeout; in "
+                      "deadline is never reported as timed out; a call whose timeout is Duration::MAX has no deadline: it is never due, stays "
+                      "pending while its inner call is unfinished however far the clock advances, and resolves with the inner result; "
+                      "in cancel mode the inner future is dropped in the step that reports the timeout; in "
                       "non-cancel mode it is never dropped and completes at its latency whatever happens to the caller; each caller's "
                       "record and history equal those of a single-caller run; the configuration a builder chain produces has, for the mode "
                       "and for the timeout source, the value set last, wherever the other setters stand. The model is tied to the real TimeLimiterLayer by "
@@ -654,6 +803,7 @@ SPECS = {
                     "harness: clock_gettime interposition, manual poller, scripted inner service", "python diff/monitors"],
         "assumptions": ["one poll of one call future is atomic (single-threaded runtime)",
                         "spawned tasks run to quiescence between two operations of the caller (current-thread runtime, harness yields)",
-                        "durations are whole milliseconds; u64/Duration modelled as unbounded Nat"],
+                        "durations are whole milliseconds; u64/Duration modelled as unbounded Nat",
+                        "a timeout of Duration::MAX is modelled as 'never due' (tokio: deadline clamped to 30 years from now; the generated clocks stay far below)"],
     },
 }
